@@ -50,6 +50,7 @@ pub fn build_det(family: &str, rng: &mut Rng, tier: u32) -> Option<Built> {
         "syncflag" => Some(syncflag::build(rng, tier)),
         "mq_mpsc" => Some(mq_mpsc::build(rng, tier)),
         "mq_spsc" => Some(mq_spsc::build(rng, tier)),
+        "mq_spsc_ring" => Some(mq_spsc::build_ring(rng, tier)),
         "mq_spmc" => Some(mq_spmc::build(rng, tier)),
         "condvar" => Some(condvar::build(rng, tier)),
         "barrier" => Some(barrier::build(rng, tier)),
@@ -62,7 +63,7 @@ pub fn build_det(family: &str, rng: &mut Rng, tier: u32) -> Option<Built> {
 }
 
 pub fn det_families() -> Vec<&'static str> {
-    vec!["blocker_thr", "ch_spsc", "ch_mpmc", "ch_mpsc", "mutex", "mq_tl", "rwlock", "rwlock_reg", "sem", "syncflag", "mq_mpsc", "mq_spsc", "mq_spmc", "condvar", "barrier", "waitgroup", "time_dur", "timeout_list"]
+    vec!["blocker_thr", "ch_spsc", "ch_mpmc", "ch_mpsc", "mutex", "mq_tl", "rwlock", "rwlock_reg", "sem", "syncflag", "mq_mpsc", "mq_spsc", "mq_spsc_ring", "mq_spmc", "condvar", "barrier", "waitgroup", "time_dur", "timeout_list"]
 }
 
 pub mod live_park;
